@@ -16,7 +16,8 @@
     stashPush / stashPop       hooks/stash_hooks.rs:save_stash_authorship_log (working-tree line
                                numbers saved on the stash commit; INITIAL of the file removed, the
                                checkpoints stay) / restore_stash_attributions (the saved line
-                               numbers become INITIAL of the current HEAD as they are)
+                               numbers become INITIAL of the current HEAD, recorded with the stashed
+                               content they refer to)
     replayChain / replayStep   rebase_authorship.rs:rewrite_authorship_after_rebase_v2 and
                                rewrite_authorship_after_cherry_pick: every line a new commit adds
                                is credited as the original history credited it (the note-copy
@@ -60,7 +61,7 @@ def amendCore (st : State) : State :=
   | (_, p) :: log, _ :: notes =>
     let author := mergedAuthor st
     { head := st.index, index := st.index, work := st.work, entries := [],
-      initial := splitPending st.index st.work author,
+      initial := splitPending st.index st.work author, initSnap := st.work,
       notes := splitNote p st.index author :: notes, log := (st.index, p) :: log }
   | _, _ => st
 
@@ -81,23 +82,24 @@ def resetStep (k : Nat) (soft : Bool) (st : State) : State :=
   let author := mergedAuthor st
   let st' := undoN k st
   { st' with index := if soft then st.index else st'.head, entries := [],
-             initial := splitPending st'.head st.work author }
+             initial := splitPending st'.head st.work author, initSnap := st.work }
 
 /-- state plus the stash stack (saved attribution, newest first) -/
 structure RState where
   st : State
-  stash : List (List (Nat × Nat)) := []
+  stash : List (List Nat × List (Nat × Nat)) := []   -- (stashed content, its claims), newest first
   deriving Repr
 
 def stashPush (r : RState) : RState :=
   let st1 := checkpoint r.st none          -- pre-stash human checkpoint
   let saved := (enum1 st1.work).filterMap (fun p => (wlAuthor st1 p.2).map (fun s => (p.1, s)))
-  { st := { st1 with work := st1.head, index := st1.head, initial := [] }, stash := saved :: r.stash }
+  { st := { st1 with work := st1.head, index := st1.head, initial := [] }, stash := (st1.work, saved) :: r.stash }
 
-/-- `git stash pop`: git produces the working tree `ys`; the saved line numbers become INITIAL -/
+/-- `git stash pop`: git produces the working tree `ys`; the saved line numbers become INITIAL,
+    recorded with the stashed content they refer to -/
 def stashPop (ys : List Nat) (r : RState) : RState :=
   match r.stash with
-  | saved :: rest => { st := { r.st with work := ys, initial := saved }, stash := rest }
+  | (snap, saved) :: rest => { st := { r.st with work := ys, initial := saved, initSnap := snap }, stash := rest }
   | [] => r
 
 /-- new commits (contents oldest first) on top of `base`, newest first; every added line is
@@ -133,7 +135,7 @@ def replayStep (drop : Nat) (mid : List ((List Nat × List Nat) × Note))
 def squashPrepare (srcLog : List (List Nat × List Nat)) (srcNotes : List Note) (ys : List Nat)
     (st : State) : State :=
   { st with work := ys, index := ys, entries := [],
-            initial := splitPending st.head ys (blame srcLog srcNotes) }
+            initial := splitPending st.head ys (blame srcLog srcNotes), initSnap := ys }
 
 /-- `git switch <other>` / `git checkout <other>` carrying uncommitted work (hooks/switch_hooks.rs,
     checkout_hooks.rs → repo_storage.rs:rename_working_log): the working log follows HEAD. git only
@@ -152,7 +154,7 @@ def switchCarry (otherLog : List (List Nat × List Nat)) (otherNotes : List Note
 def switchMerge (otherLog : List (List Nat × List Nat)) (otherNotes : List Note) (otherHead ys : List Nat)
     (st : State) : State :=
   { head := otherHead, index := otherHead, work := ys, entries := [],
-    initial := splitPending otherHead ys (wlAuthor st), log := otherLog, notes := otherNotes }
+    initial := splitPending otherHead ys (wlAuthor st), initSnap := ys, log := otherLog, notes := otherNotes }
 
 inductive ROp where
   | base (op : Op)
